@@ -438,3 +438,93 @@ def check_fresh_insertions(ctx, rid, modules=('sqlparse.filters.',)):
                    f'{why}: the same token object ends up at several positions / in several statements, and the in-place edits of the whitespace '
                    'filters (token.value = ...) then change all of them at once')
     return n
+
+
+# ---------------------------------------------------------------------------
+# option space: invariants of the filter plan over every validated option dictionary (optmodel)
+
+BOOL_KEYS = ('strip_comments', 'use_space_around_operators', 'strip_whitespace', 'indent_columns', 'reindent', 'reindent_aligned',
+             'indent_tabs', 'indent_after_first', 'comma_first', 'compact')
+
+
+def option_space(ctx):
+    """[(options given by the caller, validated dictionary or ('raise', ..), plan or None)] for every combination of
+    {absent, True, False} over the boolean options that interact (read or written together in validate_options /
+    build_filter_stack), the other options varied one at a time.  Cached per run."""
+    def build():
+        import itertools
+        from . import optmodel as OM
+        inter = ('strip_whitespace', 'indent_columns', 'reindent', 'reindent_aligned', 'use_space_around_operators', 'strip_comments')
+        single = [('indent_tabs', True), ('indent_after_first', True), ('comma_first', True), ('compact', True), ('keyword_case', 'upper'),
+                  ('identifier_case', 'lower'), ('truncate_strings', 5), ('output_format', 'python'), ('output_format', 'php'), ('output_format', 'sql'),
+                  ('right_margin', 40), ('wrap_after', 20), ('indent_width', 4)]
+        out = []
+        for vals in itertools.product((None, True, False), repeat=len(inter)):
+            base = {k: v for k, v in zip(inter, vals) if v is not None}
+            for extra in [None] + single:
+                o = dict(base)
+                if extra is not None:
+                    o[extra[0]] = extra[1]
+                v = OM.validate(ctx, o)
+                pl = OM.plan(ctx, v) if isinstance(v, dict) else None
+                out.append((o, v, pl))
+        return out
+    return ctx.shared('option_space', build)
+
+
+def check_plan_invariants(ctx, rid):
+    """For every option dictionary of the space that validate_options accepts, the filter stack build_filter_stack assembles
+    satisfies the composition the layout filters rely on."""
+    from . import optmodel as OM
+    space = option_space(ctx)
+    b = ctx.repo.func('sqlparse.formatter.build_filter_stack')
+    loc = f'{b.mod.relpath}:{b.node.lineno}'
+    ctx.info['option_dictionaries'] = len(space)
+    ctx.need(len(space) >= 5000, f'option space has only {len(space)} dictionaries')
+    inv = {
+        'no-crash': ('every accepted dictionary builds a stack (no KeyError/TypeError in build_filter_stack)', []),
+        'strip-before-indent': ('ReindentFilter / AlignedIndentFilter never run without StripWhitespaceFilter before them', []),
+        'operators-before-strip': ('SpacesAroundOperatorsFilter runs before StripWhitespaceFilter (the blanks it inserts are normalised)', []),
+        'comments-before-strip': ('StripCommentsFilter runs before StripWhitespaceFilter (blanks left by removed comments are collapsed)', []),
+        'grouping': ('a stack with statement filters has grouping enabled', []),
+        'requested-filter-present': ('a requested layout option installs its filter', []),
+        'no-unrequested-filter': ('no layout filter is installed that no option asked for', []),
+    }
+    want = {'reindent': 'ReindentFilter', 'reindent_aligned': 'AlignedIndentFilter', 'use_space_around_operators': 'SpacesAroundOperatorsFilter',
+            'strip_comments': 'StripCommentsFilter', 'strip_whitespace': 'StripWhitespaceFilter'}
+    nacc = 0
+    for o, v, pl in space:
+        if not isinstance(v, dict):
+            continue
+        nacc += 1
+        if not isinstance(pl, dict):
+            inv['no-crash'][1].append((o, pl))
+            continue
+        names = OM.plan_names(pl)['stmtprocess']
+
+        def before(a, b_):
+            return a not in names or b_ not in names or names.index(a) < names.index(b_)
+        for ind in ('ReindentFilter', 'AlignedIndentFilter'):
+            if ind in names and not ('StripWhitespaceFilter' in names and names.index('StripWhitespaceFilter') < names.index(ind)):
+                inv['strip-before-indent'][1].append((o, names))
+        if not before('SpacesAroundOperatorsFilter', 'StripWhitespaceFilter'):
+            inv['operators-before-strip'][1].append((o, names))
+        if not before('StripCommentsFilter', 'StripWhitespaceFilter'):
+            inv['comments-before-strip'][1].append((o, names))
+        if names and not pl['grouping']:
+            inv['grouping'][1].append((o, names))
+        for k, cn in want.items():
+            if o.get(k) is True and cn not in names:
+                inv['requested-filter-present'][1].append((o, names))
+        implied = {'ReindentFilter': o.get('reindent') is True or o.get('indent_columns') is True, 'AlignedIndentFilter': o.get('reindent_aligned') is True,
+                   'SpacesAroundOperatorsFilter': o.get('use_space_around_operators') is True, 'StripCommentsFilter': o.get('strip_comments') is True,
+                   'StripWhitespaceFilter': o.get('strip_whitespace') is True or o.get('reindent') is True or o.get('reindent_aligned') is True
+                   or o.get('indent_columns') is True, 'RightMarginFilter': bool(o.get('right_margin'))}
+        for cn in names:
+            if cn in implied and not implied[cn]:
+                inv['no-unrequested-filter'][1].append((o, names))
+    ctx.info['accepted_option_dictionaries'] = nacc
+    for key, (text, bad) in inv.items():
+        bad.sort(key=lambda x: len(x[0]))
+        ctx.ob(rid, f'plan:{key}', loc, f'{text} (all {nacc} accepted dictionaries of the option space)', not bad,
+               '; '.join(f'format(sql, **{o}) builds {r}' for o, r in bad[:2]) + (f' (+{len(bad) - 2} more)' if len(bad) > 2 else ''))
